@@ -64,8 +64,8 @@ func symPacket(tag string, d int, withID bool) *types.Packet {
 // second receive (which reuses the pooled buffer); an empty packet is framed as a bare zero length.
 func VH_C20_framing() {
 	d1, d2 := v.Param("D1", 1), v.Param("D2", 0)
-	withID := v.Param("ID", 0) != 0
-	p1, p2 := symPacket("p1", d1, withID), symPacket("p2", d2, withID)
+	idMode := v.Param("ID", 0) // 1: symbolic id on the first packet, 2: on both
+	p1, p2 := symPacket("p1", d1, idMode >= 1), symPacket("p2", d2, idMode >= 2)
 	w := &sinkWriter{}
 	tx := NewProtoStream(context.Background(), nil, w)
 	v.Assert(tx.SendMsg(p1) == nil && tx.SendMsg(p2) == nil, "SendMsg succeeds")
